@@ -91,6 +91,7 @@ const (
 
 type Interp struct {
 	info    *types.Info
+	callAt  ast.Node // the call expression of the library call being evaluated
 	fset    *token.FileSet
 	pkg     *types.Package
 	decls   map[*types.Func]*ast.FuncDecl
@@ -1556,6 +1557,7 @@ func (it *Interp) callValue(at ast.Node, fn Value, args []Value) []Value {
 		if f.fn != nil {
 			return f.fn(it, expandVariadic(args))
 		}
+		it.callAt = at
 		if h, ok := it.natives[f.name]; ok {
 			return h(it, expandVariadic(args))
 		}
@@ -1975,6 +1977,21 @@ func (it *Interp) sparseMembers(x *ast.RangeStmt, env *Env, n int64) ([]rune, bo
 		}
 	}
 	return out, true
+}
+
+// elemEqual: equality of the elements of the slice handed to the library call being evaluated —
+// struct values compare field by field, everything else as ==.
+func (it *Interp) elemEqual(a, b Value) bool {
+	if ce, ok := it.callAt.(*ast.CallExpr); ok && len(ce.Args) > 0 {
+		if tv, ok := it.info.Types[ce.Args[0]]; ok && tv.Type != nil {
+			if sl, ok := tv.Type.Underlying().(*types.Slice); ok {
+				if _, isStruct := sl.Elem().Underlying().(*types.Struct); isStruct {
+					return it.structEqual(a, b)
+				}
+			}
+		}
+	}
+	return valuesEqual(a, b)
 }
 
 func (it *Interp) structEqual(a, b Value) bool {
